@@ -291,6 +291,60 @@ fn lloyd<F: SS>(p: &Params) {
     with_metric!(p.u("metric", 1), lloyd_d, p)
 }
 
+/// one iteration on a large data set: only the first `sym` rows (and, with csym=1, the start centroids) are
+/// symbolic, the other rows are fixed points of the domain.  The nearest centroid of every row is determined by the
+/// harness' own comparisons (branches of the same path); paths with a tie are left to the small instances.
+fn lloyd_wide_d<F: SS, D: Dst<F>>(p: &Params, dist: D, pw: usize) {
+    let (n, k, d, b) = (p.u("n", 600), p.u("k", 2), p.u("d", 1), p.get("B", 64));
+    let (sym, csym, iters) = (p.u("sym", 1).min(n), p.u("csym", 0), p.get("m", 1) as u64);
+    let span = 2 * b + 1;
+    let c0 = if csym == 1 { sym_matrix::<F>("c", k, d, b) } else { Array2::from_shape_fn((k, d), |(c, j)| F::lit((((c as i64 * 2 + 1) * span / (2 * k as i64)) - b + j as i64 + c as i64) as f64 + 0.25 * c as f64)) };
+    let xs = sym_matrix::<F>("x", sym, d, b);
+    let x = Array2::from_shape_fn((n, d), |(i, j)| if i < sym { xs[(i, j)] } else { F::lit((((i as i64 * 7 + j as i64 * 13) % span) - b) as f64) });
+    let mut cur = c0.clone();
+    for it in 0..iters {
+        let model = fit_pre(&dist, &cur, &x, 1, 1);
+        let c1 = model.centroids().clone();
+        check_bool("lloyd_wide.exactly k centroids of the data's dimension", c1.dim() == (k, d));
+        if c1.dim() != (k, d) {
+            return;
+        }
+        let mut sums = cur.clone();
+        let mut cnt = vec![1usize; k];
+        let mut tie = false;
+        for i in 0..n {
+            let dd: Vec<F> = (0..k).map(|c| rdist(pw, &row(&cur, c), &row(&x, i))).collect();
+            let mut best = 0;
+            for c in 1..k {
+                if dd[c] < dd[best] {
+                    best = c;
+                }
+            }
+            tie |= (0..k).any(|c| c != best && dd[c] == dd[best]);
+            cnt[best] += 1;
+            for j in 0..d {
+                sums[(best, j)] = sums[(best, j)] + x[(i, j)];
+            }
+        }
+        assume_bool(!tie);
+        let tol = tol_for(b, 1, 1) * (n as f64 + 1.0);
+        for c in 0..k {
+            for j in 0..d {
+                check("lloyd_wide.new centroid * (count + 1) == previous centroid + sum of its nearest points", close(c1[(c, j)] * F::lit(cnt[c] as f64), sums[(c, j)], tol));
+                if it + 1 == iters {
+                    observe(c1[(c, j)]);
+                }
+            }
+        }
+        check_bool("lloyd_wide.counts sum to n", model.cluster_count().iter().map(|v| v.shadow() as usize).sum::<usize>() == n);
+        cur = c1;
+    }
+}
+fn lloyd_wide<F: SS>(p: &Params) {
+    set_tol(p);
+    with_metric!(p.u("metric", 3), lloyd_wide_d, p)
+}
+
 // ------------------------------------------------------------------------------------------------
 /// same precomputed start, budgets m and m+1: the cost of the returned centroids does not increase
 fn mono_d<F: SS, D: Dst<F>>(p: &Params, dist: D, pw: usize) {
@@ -531,6 +585,10 @@ pub fn register(v: &mut Vec<HarnessDef>) {
         "one iteration from a precomputed start: for some nearest-centroid assignment, new_centroid*(count+1) == old_centroid + sum of assigned points",
         ["linfa_clustering::KMeansValidParams::fit", "k_means::algorithm::{update_memberships_and_dists, closest_centroid, compute_centroids}", "KMeansInit::Precomputed (init.rs KMeansInit::run)", "linfa_nn::distance::*::{rdistance,distance}"],
         ["coordinates are integers in [-B,B]", "n_runs=1, max_n_iterations=1, tolerance 2^-tolshift (default 2^-40)", "metric=2: L2Dist::distance concretises; with budget 1 its value cannot change the result (the loop stops after the first iteration in any case)", "cross-multiplied equality up to 1e-9*(1+2B)*(n+1)"]);
+    harness!(v, "c09.lloyd_wide", "C09", lloyd_wide,
+        "one or more single iterations on a large data set (hundreds of rows) of which only `sym` rows (csym=1: and the start centroids) are symbolic: new_centroid*(count+1) == old_centroid + sum of the rows nearest to it, counts sum to n",
+        ["linfa_clustering::KMeansValidParams::fit", "k_means::algorithm::{update_memberships_and_dists, closest_centroid, compute_centroids}", "KMeansInit::Precomputed"],
+        ["fixed rows are integers of [-B,B] (i*7 mod (2B+1) - B)", "paths on which some row is equally near to two centroids are discarded (ties are covered by c09.lloyd on small instances)", "cross-multiplied equality up to 1e-9*(1+2B)*(n+1)"]);
     harness!(v, "c09.mono", "C09", mono,
         "budgets m and m+1 from the same precomputed start: the sum of minimal squared distances to the returned centroids does not increase (lemmas=2/4: the same statement submitted together with the two steps of the textbook argument)",
         ["linfa_clustering::KMeansValidParams::fit (iteration loop)", "k_means::algorithm::{update_memberships_and_dists, closest_centroid, compute_centroids}", "KMeans::predict (labels of the budget-m model, lemmas only)"],
